@@ -78,6 +78,8 @@ def pointee(q):
 
 
 class LoopFn:
+    MEM_T = "memory"
+
     def __init__(self, tr, cfg, node):
         self.tr, self.cfg, self.node = tr, cfg, node
         self.calls = cfg.get("calls", {})
@@ -101,11 +103,15 @@ class LoopFn:
 
     def coqtype_of(self, q):
         q = TYPEDEFS.get(norm_type(q), q)
+        if norm_type(q) in self.cfg.get("enums", []):
+            return "Z"
         t = ctype(q)
         if t[0] in ("int", "bool", "enum"):
             return "Z"
         if t[0] == "ptr":
             return "ptr"
+        if re.fullmatch(r"(un)?(signed )?char\s*\[\d+\]", norm_type(q)):
+            return "ptr"                   # a local byte array: the pointer to its block
         raise Unsupported("variable of type %s" % q)
 
     def declare(self, name, q):
@@ -298,6 +304,9 @@ class LoopFn:
                 y = x
                 while y.get("kind") in SKIP:
                     y = self.inner(y)[0]
+                if y.get("kind") == "DeclRefExpr" and self.ident(y["referencedDecl"].get("name", "")) in self.vars and \
+                        y["referencedDecl"].get("name") not in self.cfg.get("global_arrays", []):
+                    return k(self.ident(y["referencedDecl"]["name"]))          # a local array: the variable holds the pointer
                 if y.get("kind") == "DeclRefExpr" and y["referencedDecl"].get("name") in self.cfg.get("global_arrays", []):
                     # a constant global array: a pointer parameter of the translation (its content is a hypothesis of the theorems)
                     return k(self.field_var("global", y["referencedDecl"]["name"], "ptr"))
@@ -469,6 +478,9 @@ class LoopFn:
     def call(self, spec, args, k):
         if isinstance(spec, str):                       # pure template over the argument values
             return k("(" + spec.format(*args) + ")")
+        if spec.get("ghost"):                           # an effect on a ghost variable (e.g. text handed to the output)
+            g = spec["ghost"]
+            return "(match %s with None => Oob | Some %s => %s end)" % (spec["update"].format(*args), g, k("0"))
         fn = spec["fn"]
         r = self.tmp("r")
         if spec.get("writes"):
@@ -482,6 +494,8 @@ class LoopFn:
         inn = self.inner(n)
         if kd == "VarDecl":
             declared.add(self.ident(n["name"]))
+            if re.fullmatch(r"(un)?(signed )?char\s*\[\d+\]", norm_type(qual(n))):
+                flags.add("store")
         if kd == "DeclRefExpr" and n["referencedDecl"].get("kind") in ("ParmVarDecl", "VarDecl"):
             if n["referencedDecl"]["name"] in self.cfg.get("global_arrays", []):
                 refs.add(self.field_var("global", n["referencedDecl"]["name"], "ptr"))
@@ -521,6 +535,10 @@ class LoopFn:
                 spec = self.calls.get(self.callee_name(inn[0]))
             except Unsupported:
                 spec = None
+            if isinstance(spec, dict) and spec.get("ghost"):
+                flags.add("mem")
+                assigned.add(spec["ghost"])
+                refs.add(spec["ghost"])
             if isinstance(spec, dict) and spec.get("fn"):
                 flags.add("mem")
                 flags.add("call")
@@ -584,7 +602,7 @@ class LoopFn:
                 assigned -= declared
                 state = (["mem"] if "store" in flags else []) + [v for v in self.order if v in assigned]
                 st = ("(" + ", ".join(state) + ")") if len(state) != 1 else state[0]
-                sty = " * ".join(("memory" if v == "mem" else self.vars[v]) for v in state) if state else "unit"
+                sty = " * ".join((self.MEM_T if v == "mem" else self.vars[v]) for v in state) if state else "unit"
                 if not state:
                     st = "tt"
                 go = lambda: "(Go %s)" % st
@@ -603,6 +621,12 @@ class LoopFn:
                     raise Unsupported("declaration %s" % d.get("kind"))
                 nm = self.declare(d["name"], qual(d))
                 di = self.inner(d)
+                am = re.fullmatch(r"(un)?(signed )?char\s*\[(\d+)\]", norm_type(qual(d)))
+                if am:
+                    if di:
+                        raise Unsupported("initialised local array")
+                    self.stores = True
+                    return "(let %s := Ptr (List.length mem) 0 in let mem := mem ++ [repeat 0%%N %s] in %s)" % (nm, am.group(3), go(i + 1))
                 if not di:
                     return "(let %s := %s in %s)" % (nm, "Null" if self.vars[nm] == "ptr" else "0", go(i + 1))
                 return self.E(di[0], lambda v: "(let %s := %s in %s)" % (nm, v, go(i + 1)))
@@ -634,6 +658,11 @@ class LoopFn:
             return len(inn) > 2 and self.always_jumps(inn[1]) and self.always_jumps(inn[2])
         return False
 
+    def has_return(self, s):
+        if s.get("kind") == "ReturnStmt":
+            return True
+        return any(self.has_return(c) for c in self.inner(s))
+
     def has_jump(self, s):
         """a break/continue that belongs to an enclosing loop"""
         kd = s.get("kind")
@@ -644,6 +673,9 @@ class LoopFn:
         return any(self.has_jump(c) for c in self.inner(s))
 
     def ret(self, v):
+        gs = [g for g, _ in self.cfg.get("ghosts", [])]
+        if gs:
+            return "(Done (%s))" % ", ".join([v, "mem"] + gs)
         return "(Done (%s, mem))" % v if self.fn_stores else "(Done %s)" % v
 
     def loop(self, s, nxt, ctx):
@@ -673,6 +705,11 @@ class LoopFn:
                 self.scan(part, refs, assigned, declared, flags)
         refs -= declared
         assigned -= declared
+        has_ret = any(part is not None and self.has_return(part) for part in (cond, inc, body))
+        if has_ret and self.fn_stores:
+            flags.add("mem")                      # a return inside the loop hands back the memory (and the ghosts)
+            for g, _ in self.cfg.get("ghosts", []):
+                refs.add(g)
         state = [v for v in self.order if v in assigned]
         consts = [v for v in self.order if v in refs and v not in assigned]
         need_mem = "mem" in flags or "store" in flags
@@ -685,7 +722,7 @@ class LoopFn:
         name = "%s_loop%d" % (self.coq, self.nloops)
 
         def ty(v):
-            return "memory" if v == "mem" else self.vars[v]
+            return self.MEM_T if v == "mem" else self.vars[v]
         st_tuple = "(" + ", ".join(state) + ")" if len(state) != 1 else state[0]
         if not state:
             st_tuple = "tt"
@@ -723,6 +760,9 @@ class LoopFn:
         ret = qual(node).split("(")[0].strip()
         ret = TYPEDEFS.get(norm_type(ret), ret)
         void = norm_type(ret) == "void"
+        for g, t in self.cfg.get("ghosts", []):
+            self.vars[g] = t
+            self.order.append(g)
         self.predeclare(node)
         refs, assigned, declared, flags = set(), set(), set(), set()
         self.scan(body, refs, assigned, declared, flags)
@@ -730,7 +770,11 @@ class LoopFn:
         self.stores = False
         self.nloops = 0
         base = "unit" if void else self.coqtype_of(ret)
-        self.rtype = "(%s * memory)" % base if self.fn_stores else base
+        self.rtype = "(%s * %s)" % (base, self.MEM_T) if self.fn_stores else base
+        ghosts = self.cfg.get("ghosts", [])
+        if ghosts:
+            self.fn_stores = True
+            self.rtype = "(%s)" % " * ".join([base, self.MEM_T] + [t for _, t in ghosts])
         end = (lambda: self.ret("tt")) if void else (lambda: "Oob")       # falling off the end of a non-void function
         text = self.S([body], end, {})
         # parameters: the fields of `this`, the fields of the object parameters (in parameter order), then the ordinary parameters
@@ -741,7 +785,7 @@ class LoopFn:
                 return (-1, self.fields.index(f))
             pre = next((q for q in ["this"] + pnames if f.startswith(q + "_")), "this")
             return (0 if pre == "this" else 1 + pnames.index(pre), self.fields.index(f))
-        ps = []
+        ps = ["(%s : %s)" % (g, t) for g, t in self.cfg.get("ghosts", [])]
         for f in sorted(self.fields, key=fkey):
             ps.append("(%s : %s)" % (f, self.vars[f]))
         for p in params:
@@ -749,7 +793,7 @@ class LoopFn:
             if nm in self.vars:
                 ps.append("(%s : %s)" % (nm, self.vars[nm]))
         hdr = "(* %s : %s *)\n" % (self.cfg["file"], self.cfg["name"])
-        return hdr + "".join(self.loops) + "Definition %s (fuel0 : nat) (mem : memory) %s : fres %s :=\n  finish (R := %s) (A := unit)\n    %s.\n" % (
+        return hdr + "".join(self.loops) + ("Definition %s (fuel0 : nat) (mem : " + self.MEM_T + ") %s : fres %s :=\n  finish (R := %s) (A := unit)\n    %s.\n") % (
             self.coq, " ".join(ps), self.rtype, self.rtype, pretty(text))
 
 
